@@ -236,7 +236,7 @@ inductive FCmd where
   | deleteMany (keys : List (List Nat))
   | clear
   | keysCount
-  deriving Repr
+  deriving DecidableEq, Repr
 
 def FCmd.keys : FCmd → List (List Nat)
   | .keyed _ k => [k]
